@@ -236,9 +236,40 @@ func runPrestate(o *opts) {
 			rmrf(filepath.Dir(p.CacheDir))
 		}
 	}
+	// several stages in one invocation, the obstructed one named FIRST: the command still fails
+	for k := 0; k < 4; k++ {
+		rr := r.fork()
+		base := scenarioDir(o, "prestatem", k)
+		p := newProject(o, base, []string{"in", "abs"}[k%2])
+		p.init()
+		for _, n := range []string{"a", "b", "c"} {
+			must(os.WriteFile(filepath.Join(p.Root, n+".txt"), append([]byte(n+" committed "), rr.bytes(10)...), 0o644))
+			p.writeStage(n+".yaml", &StageRec{Out: []Art{{Path: n + ".txt"}}})
+		}
+		if res := p.dud("", "stage", "add", "a.yaml", "b.yaml", "c.yaml"); res.Exit != 0 {
+			must(fmt.Errorf("prestate multi setup: %s", res.Stderr))
+		}
+		if res := p.dud("", "commit"); res.Exit != 0 {
+			must(fmt.Errorf("prestate multi commit: %s", res.Stderr))
+		}
+		os.Remove(filepath.Join(p.Root, "a.txt"))
+		must(os.WriteFile(filepath.Join(p.Root, "a.txt"), []byte("the user's own bytes"), 0o644))
+		os.Remove(filepath.Join(p.Root, "b.txt"))
+		c := Cmd{Kind: "checkout", Copy: k >= 2, Targets: []string{"a.yaml", "b.yaml", "c.yaml"}, Single: k%2 == 1}
+		t, _ := p.do(c, nil, want(5, 4, 8, 9, 13), nil, nil)
+		t.Info["step"] = "checkout of three stages, the first one obstructed"
+		tag([]*Transition{t}, "prestate", 6000+k, map[string]interface{}{"kind": "three-stages-first-obstructed"})
+		all = append(all, t)
+		s.count("multi-stage:first-obstructed")
+		distinct[fmt.Sprintf("multi%d", k)] = true
+		rmrf(base)
+		if p.CacheCfg != "" && filepath.Dir(p.CacheDir) != base {
+			rmrf(filepath.Dir(p.CacheDir))
+		}
+	}
 	s.Cases = len(all)
 	s.Nontrivial = len(distinct)
-	s.Rule = "file artifacts below a pre-existing parent (empty directory, link to a directory) that checkout cannot place: the parent stays; committed artifact x a pre-existing workspace state per manifest entry (absent, correct link, link to other object, dangling link, foreign link, equal file, different file, dir-for-file, file-for-dir, link-for-dir, extra files) x strategy; non-trivial = at least one pre-existing entry collides with a manifest entry; distinct by pre-state tree"
+	s.Rule = "three stages checked out in one invocation with the first one obstructed; file artifacts below a pre-existing parent (empty directory, link to a directory) that checkout cannot place: the parent stays; committed artifact x a pre-existing workspace state per manifest entry (absent, correct link, link to other object, dangling link, foreign link, equal file, different file, dir-for-file, file-for-dir, link-for-dir, extra files) x strategy; non-trivial = at least one pre-existing entry collides with a manifest entry; distinct by pre-state tree"
 	if len(all) > 0 {
 		s.Samples = append(s.Samples, all[0].Info, all[len(all)/2].Info)
 	}
@@ -623,6 +654,9 @@ func runCorrupt(o *opts) {
 // forceInPlace: the next edit is a change of a file's bytes, written in place when the file is regular
 var forceInPlace bool
 
+// forceKind: the next edit is of this kind (if it applies)
+var forceKind string
+
 // applyEdit performs one user edit inside the artifact at abs; returns a label or "" if not applicable.
 func applyEdit(r *rng, p *Project, c *committed, abs string) string {
 	// collect entries as they are on disk now
@@ -650,7 +684,9 @@ func applyEdit(r *rng, p *Project, c *committed, abs string) string {
 			return e.n.Data
 		}
 		b, err := os.ReadFile(filepath.Join(abs, e.rel))
-		must(err)
+		if err != nil {
+			return nil // a dangling link, a link to a directory: nothing to read
+		}
 		return b
 	}
 	rewrite := func(e ent, b []byte) {
@@ -669,9 +705,12 @@ func applyEdit(r *rng, p *Project, c *committed, abs string) string {
 			must(os.Chtimes(fp, old, old))
 		}
 	}
-	kind := []string{"flip", "truncate", "append", "add-file", "add-dir", "delete", "rename", "retarget", "dangle", "file-to-dir", "dir-to-file", "link-to-copy", "none", "edit-below-norec", "append-nul", "truncate-nul", "drop-object", "drop-object", "retarget", "retarget", "file-to-dir", "dir-to-file", "dir-to-file", "delete-subdir", "root-to-file", "delete-root"}[r.intn(26)]
+	kind := []string{"flip", "truncate", "append", "add-file", "add-dir", "delete", "rename", "retarget", "dangle", "file-to-dir", "dir-to-file", "link-to-copy", "none", "edit-below-norec", "append-nul", "truncate-nul", "drop-object", "drop-object", "retarget", "retarget", "file-to-dir", "dir-to-file", "dir-to-file", "delete-subdir", "root-to-file", "delete-root", "subdir-to-outside-link", "subdir-to-outside-link", "subdir-to-outside-link"}[r.intn(29)]
 	if forceInPlace {
 		kind = []string{"append", "flip", "truncate"}[r.intn(3)]
+	}
+	if forceKind != "" {
+		kind = forceKind
 	}
 	switch kind {
 	case "flip", "truncate", "append", "delete", "rename", "retarget", "dangle", "file-to-dir", "link-to-copy", "append-nul", "truncate-nul", "drop-object":
@@ -777,6 +816,21 @@ func applyEdit(r *rng, p *Project, c *committed, abs string) string {
 			return ""
 		}
 		rmrf(filepath.Join(abs, dirs[1+r.intn(len(dirs)-1)].rel))
+	case "subdir-to-outside-link":
+		// a committed sub-directory is replaced by a link to a directory of plain files kept elsewhere
+		// in the project: not something to version (commit refuses), and those files stay what they are
+		if len(dirs) < 2 {
+			return ""
+		}
+		d := dirs[1+r.intn(len(dirs)-1)]
+		raw := filepath.Join(p.Root, "raw_inputs")
+		must(os.MkdirAll(raw, 0o755))
+		for _, f := range []string{"in1.txt", "in2.txt"} {
+			os.Remove(filepath.Join(raw, f)) // (whatever an earlier command made of it)
+			must(os.WriteFile(filepath.Join(raw, f), []byte("plain input "+f), 0o644))
+		}
+		rmrf(filepath.Join(abs, d.rel))
+		must(os.Symlink(raw, filepath.Join(abs, d.rel)))
 	case "root-to-file":
 		// the whole directory artifact is replaced by a regular file
 		if cur.Kind != "d" {
@@ -909,7 +963,7 @@ func runHist(o *opts) {
 	distinct := map[string]bool{}
 	for i := 0; i < n; i++ {
 		rr := r.fork()
-		c := setupCommitted(o, rr, s, "hist", i, []string{"dir", "dir", "norec", "file"}, treeOpts{maxDepth: 2, maxFan: 4, hostile: rr.chance(1, 3), allowEmptyDir: true, cacheNames: true})
+		c := setupCommitted(o, rr, s, "hist", i, []string{"dir", "dir", "norec", "file"}, treeOpts{maxDepth: 2, maxFan: 4, hostile: rr.chance(1, 3), allowEmptyDir: true, cacheNames: true, ensureSubdir: i%6 == 1})
 		c.ts[0].Specs = want(11, 7, 1)
 		all = append(all, c.ts[0])
 		if !c.ts[0].OK {
@@ -935,8 +989,12 @@ func runHist(o *opts) {
 		}
 		for k := 0; k < steps; k++ {
 			lastOK = false
+			if k == 0 && i%6 == 1 && c.kind == "dir" && !forceInPlace {
+				forceKind = "subdir-to-outside-link"
+			}
 			ek := applyEdit(rr, p, c, abs)
 			forceInPlace = false
+			forceKind = ""
 			if ek == "" || ek == "dangle" || ek == "drop-object" {
 				// dangling links (also: links whose object was dropped from the cache) cannot be
 				// committed (by design); skip those edits. A link re-pointed at ANOTHER object of the
@@ -952,6 +1010,12 @@ func runHist(o *opts) {
 			sp := want(11, 7, 1, 14, 12)
 			if (c.kind == "file" && (ek == "delete" || ek == "rename" || ek == "file-to-dir")) || ek == "root-to-file" || ek == "delete-root" {
 				sp = want(5, 1, 12) // the output itself vanished / changed kind: commit must refuse
+			}
+			if ek == "subdir-to-outside-link" {
+				sp = want(5, 1, 12, 14) // a link to a live directory: refused, and what the files say stays
+				if c.kind == "norec" {
+					sp = want(1, 12, 14) // (a non-recursive artifact does not track sub-directories)
+				}
 			}
 			t, w2 := p.do(Cmd{Kind: "commit", Copy: rr.chance(1, 2)}, nil, sp, nil, nil)
 			t.Info["step"] = fmt.Sprintf("recommit after %s", ek)
